@@ -1,6 +1,6 @@
 (* C19  API type values obey round-trip, equality and hashing laws. *)
 From Coq Require Import List Permutation.
-From SV Require Import Lib.Str Model.Types Proofs.TypesProofs.
+From SV Require Import Lib.Str Model.Types Proofs.TypesProofs Proofs.EqProofs Proofs.HashProofs.
 
 (* serialising and parsing back yields the same value (hence an equal one, and the same dictionary again) *)
 Theorem C19_roundtrip : forall t, from_dict (S (depth t)) (to_dict t) = Ok t.
@@ -13,31 +13,37 @@ Proof. exact roundtrip_full. Qed.
 Theorem C19_eq_refl : forall t, py_eq t t = true.
 Proof. exact py_eq_refl. Qed.
 
-(* types that ignore element order in equality ... *)
-Theorem C19_perm_eq : forall C ts ts', seq_ctor C -> Permutation ts ts' -> py_eq (C ts) (C ts') = true.
-Proof. exact perm_eq. Qed.
+Theorem C19_eq_sym : forall a b, py_eq a b = py_eq b a.
+Proof. exact py_eq_sym. Qed.
 
-(* ... also ignore it in hashing.  Full statement (target):
-     forall C ts ts', seq_ctor C -> Permutation ts ts' -> hk_eqb (hkey (C ts)) (hkey (C ts')) = true.
-   Proved below for element lists that are pairwise unequal; what is missing is the general law "equal values have equal
-   hash keys", on which the choice of the representative kept by a frozenset depends. *)
-Theorem C19_perm_eq_hash_partial :
-  forall C ts ts', seq_ctor C -> Permutation ts ts' -> Distinct py_eq ts ->
+Theorem C19_eq_trans : forall a b c, py_eq a b = true -> py_eq b c = true -> py_eq a c = true.
+Proof. exact py_eq_trans. Qed.
+
+(* equal values have equal hashes (hash keys: equal keys imply equal Python hashes) *)
+Theorem C19_eq_hash : forall a b, py_eq a b = true -> hk_eqb (hkey a) (hkey b) = true.
+Proof. exact eq_hash. Qed.
+
+(* types that ignore element order in equality also ignore it in hashing *)
+Theorem C19_perm_eq_hash :
+  forall C ts ts', seq_ctor C -> Permutation ts ts' ->
   py_eq (C ts) (C ts') = true /\ hk_eqb (hkey (C ts)) (hkey (C ts')) = true.
-Proof. exact perm_eq_hash_partial. Qed.
+Proof. exact perm_eq_hash. Qed.
 
-Theorem C19_literal_perm_eq_hash_partial :
-  forall ls ls', Permutation ls ls' -> Distinct lit_eqb ls ->
+Theorem C19_callable_params_perm_eq_hash : forall ps ps' r, Permutation ps ps' ->
+  py_eq (TCallable ps r) (TCallable ps' r) = true /\ hk_eqb (hkey (TCallable ps r)) (hkey (TCallable ps' r)) = true.
+Proof. exact callable_params_perm_eq_hash. Qed.
+
+Theorem C19_literal_perm_eq_hash :
+  forall ls ls', Permutation ls ls' ->
   py_eq (TLiteral ls) (TLiteral ls') = true /\ hk_eqb (hkey (TLiteral ls)) (hkey (TLiteral ls')) = true.
-Proof. exact literal_perm_eq_hash_partial. Qed.
-
-Theorem C19_hash_refl : forall t, hk_eqb (hkey t) (hkey t) = true.
-Proof. exact hash_refl. Qed.
+Proof. exact literal_perm_eq_hash. Qed.
 
 Print Assumptions C19_roundtrip.
 Print Assumptions C19_roundtrip_full.
 Print Assumptions C19_eq_refl.
-Print Assumptions C19_perm_eq.
-Print Assumptions C19_perm_eq_hash_partial.
-Print Assumptions C19_literal_perm_eq_hash_partial.
-Print Assumptions C19_hash_refl.
+Print Assumptions C19_eq_sym.
+Print Assumptions C19_eq_trans.
+Print Assumptions C19_eq_hash.
+Print Assumptions C19_perm_eq_hash.
+Print Assumptions C19_callable_params_perm_eq_hash.
+Print Assumptions C19_literal_perm_eq_hash.
